@@ -499,3 +499,49 @@ for _k, _l in (("DecInt", 80), ("HexInt", 80), ("OctInt", 80), ("BinInt", 160)):
 def no_parse_cache(O):
     from . import C15
     C15.no_shared_state_core(O, dri.Rep({"family": "malformed"}, B.dig_battery() + B.malformed_battery(), B.dig_or_malformed_judge))
+
+
+@obligation("C12/function-names-are-exact", profiles=("dev",),
+            desc="FuncTable::get (the lookup both the parser's unknown-function check and Expr::eval use): the entry returned is one "
+                 "whose name IS the name asked for (string identity) - no folding of case or other normalisation")
+def function_names_exact(O):
+    from ..itermodels import str_id, _str_node
+    from .common import initial
+    m = O.mir
+    R = rep()
+    fn = O.find("::get", file="expr.rs", param0="&FuncTable")
+    eng = O.engine()
+    eng.iter_bound = 4
+    eng.max_visits = 8
+
+    def setup(eng_, st, fr):
+        me = eng_.deref(fr.locals[1])
+        ents = [build.struct([Node("fname%d" % i, ty="&str"), Node("fargs%d" % i, ty="usize"), Node("ffn%d" % i, ty="fn")], "FuncTableEntry") for i in range(3)]
+        eng_.field(me, m.fidx("FuncTable", "entries")).target = build.slice_of_items(ents, "[FuncTableEntry]")
+    paths = O.explore(eng, fn, setup=setup)
+    want = str_id(eng, _str_node(eng, initial(fn, 2)))
+    n = 0
+    for p in paths:
+        eng.focus(p)
+        if p.outcome == "cut":
+            raise LookupError("FuncTable::get runs more loop iterations than one pass over three entries")
+        if p.outcome != "return":
+            R.fail(O, p, "FuncTable::get: %s %s" % (p.outcome, p.detail))
+            continue
+        other = [e.norm for e in p.trace if e.kind == "call"]
+        if other:
+            R.fail(O, p, "FuncTable::get compares names through %s" % other[0].split("::")[-1][:40])
+            continue
+        tg = eng.tag_of(p.ret, None)
+        r, _ = O.solve(list(p.pc) + [tg == bv64(1)], want_model=False)
+        if r != "sat":
+            continue
+        n += 1
+        ent = T(eng, eng.field(eng.downcast(p.ret, "Some"), 0))
+        if ent is None:
+            R.fail(O, p, "FuncTable::get returns something that is not a table entry", extra=[tg == bv64(1)])
+            continue
+        got = str_id(eng, _str_node(eng, eng.field(ent, m.fidx("FuncTableEntry", "name"))))
+        R.prove(O, p, got == want, "a function is found only under exactly its name", extra=[tg == bv64(1)])
+    if n == 0:
+        O.inconclusive("vacuous: FuncTable::get never finds an entry")
